@@ -560,8 +560,24 @@ def r5(R):
     lab = src(kc.args[4]) if len(kc.args) >= 5 else None
     for a in gas:
         t = pyfacts.resolved_src(fn, a.value, 4, keep=("self", lab or "labels"))
-        ok = lab is not None and lab in t and a.lineno > (getattr(loops[0], "end_lineno", loops[0].lineno)) and \
-            re.search(r"(histogram|bincount|myhistogram|searchsorted|unique|count_nonzero|==)", t) is not None
+        # everything the stored value is computed from, through all assignments after the grain loop (a histogram written out in
+        # several statements re-uses a name)
+        end_ = getattr(loops[0], "end_lineno", loops[0].lineno)
+        clo, texts, grew = set(x.id for x in ast.walk(a.value) if isinstance(x, ast.Name)), [t], True
+        while grew:
+            grew = False
+            for st_ in ast.walk(fn):
+                if isinstance(st_, ast.Assign) and st_.lineno > end_ and st_ is not a and \
+                        set(x.id for t_ in st_.targets for x in ast.walk(t_) if isinstance(x, ast.Name)) & clo:
+                    new_ = set(x.id for x in ast.walk(st_.value) if isinstance(x, ast.Name)) - clo
+                    if src(st_.value) not in texts:
+                        texts.append(src(st_.value))
+                    if new_:
+                        clo |= new_
+                        grew = True
+        tt = " ; ".join(texts)
+        ok = lab is not None and (lab in t or lab in clo) and a.lineno > end_ and \
+            re.search(r"(histogram|bincount|myhistogram|searchsorted|unique|count_nonzero|==)", tt) is not None
         R.check(ok, "C07.R5", "ImageD11/indexing.py", a.lineno, "indexer.fight_over_peaks", "self.gas = histogram of %s after all grains competed" % lab,
                 "the per-grain counts are not computed from the final label array: %s" % t[:80])
 
